@@ -81,6 +81,13 @@ Qed.
 Definition is_file_ev (e : ev) : bool :=
   is_access e || ev_is (Call "open") e || ev_is (Call "close") e.
 
+(* an event that touches a lock, a record or a file at all *)
+Definition touches_shared (e : ev) : bool :=
+  match e with
+  | Acq _ | Rel _ | Rd _ | Wr _ | Call _ => true
+  | _ => false
+  end.
+
 Definition is_loop_ev (e : ev) : bool :=
   match e with LoopB | LoopE => true | _ => false end.
 
